@@ -527,7 +527,7 @@ func c40reg[F any](name string, labels []string, vals []F) c40typ {
 					r.Outcome("B " + kind + "/" + name + ": " + refused)
 				case sig != "":
 					r.Outcome("B " + kind + "/" + name + ": VIOLATION")
-					full := fmt.Sprintf("%s/%s: %s (%s)", kind, name, sig, what)
+					full := fmt.Sprintf("%s/%s: %s", kind, name, sig)
 					lastLabel := labels[i]
 					if strings.HasPrefix(what, "update") {
 						lastLabel = labels[j]
@@ -676,8 +676,8 @@ func TestVerif_C40(t *testing.T) {
 			for ci, c := range cfgs {
 				share := r.Remaining() * 0.8 / float64(len(cfgs)-ci)
 				vexp.Run(r, vexp.Prog{Name: "A " + c.name, Body: c40body(c),
-					Budget:  vsched.Budget{MaxPreempt: vrun.Pick(r, c.p, c.p+1)},
-					Delay:   vrun.Pick(r, 1, 2),
+					Budget:  vsched.Budget{MaxPreempt: vrun.Pick(r, c.p, 6)}, // thorough: with ~10 choices per execution this is every schedule
+					Delay:   vrun.Pick(r, 1, 0),
 					Opts:    vsched.Options{Horizon: 5000},
 					Seconds: share})
 			}
